@@ -132,7 +132,7 @@ impl Prop for C01 {
         vec![Stream::new("core", 2000 * m, 700).batch(50), Stream::new("main", 1000 * m, 700).batch(50)]
     }
     fn rule(&self) -> String {
-        "programs generated from the byte tape by gen::prog (profile core; stream `main` wraps the body in function main and adds host-call entry); each is run in V8 (node vm, fresh context) and in boa through 6 entry modes (eval bytes, Script::parse from reader, UTF-16 source, evaluate_async_with_budget 1/7/256) [+ host JsObject::call for stream main; thorough adds all-shortcuts-off and optimizer-off]; non-trivial = V8 accepts it (no early error), >= 5 distinct statement kinds, >= 3 printed lines; distinct = distinct source text".into()
+        "programs generated from the byte tape by gen::prog (profile core: declarations, closures, generators incl. yield*, classes, destructuring, custom iterables, labelled control flow, try/finally, eval/with, TDZ probes, captured block bindings read back at program end, abrupt exits through nested capturing scopes, Map/Set mutated under live and abandoned iterators, anonymous functions in name-inferring positions, literal/constant-expression conditions; stream `main` wraps the body in function main and adds host-call entry); each is run in V8 (node vm, fresh context) and in boa through 6 entry modes (eval bytes, Script::parse from reader, UTF-16 source, evaluate_async_with_budget 1/7/256) [+ host JsObject::call for stream main; thorough adds all-shortcuts-off and optimizer-off]; non-trivial = V8 accepts it (no early error), >= 5 distinct statement kinds, >= 3 printed lines; distinct = distinct source text".into()
     }
     fn assumptions(&self) -> Vec<String> {
         vec!["V8 (node 20) implements the ECMAScript semantics of the generated fragment; the generator avoids Annex B, implementation-defined text, transcendental Math, deep recursion".into()]
